@@ -226,8 +226,17 @@ class Report:
     for i, f in enumerate(findings):
       if i in used_findings:
         lines.append('KNOWN-FINDING: property=%s %s' % (pid, f['what']))
-    for what, path, suffix in violations[:20]:
+    # one line per distinct failed clause (the same clause usually fails on
+    # several paths): the replay file of the first occurrence is named
+    seen_labels = {}
+    for what, path, suffix in violations:
+      key = what.split('@L')[0]
+      seen_labels.setdefault(key, [what, path, suffix, 0])
+      seen_labels[key][3] += 1
+    for key, (what, path, suffix, cnt) in list(seen_labels.items())[:25]:
       lines.append('VIOLATION property=%s replay=%s%s' % (pid, path, suffix))
+      lines.append('  failed: %s%s' % (what, ' (and %d more paths)' % (cnt - 1)
+                                        if cnt > 1 else ''))
     for n in undecided[:20]:
       lines.append('UNDECIDED property=%s obligation=%s' % (pid, n))
     for e in errors[:20]:
